@@ -21,6 +21,26 @@ def unpack2 {α : Type} : List α → R (α × α)
   | [a, b] => .ok (a, b)
   | _ => .error .value
 
+/-- `Scaffold.idx_fragments()`: the (index, Fragment) pairs of the Fragment rows -/
+def idxFragmentsFrom (k : Int) : List Row → List (Int × Fragment)
+  | [] => []
+  | .frag f :: r => (k, f) :: idxFragmentsFrom (k + 1) r
+  | .gap _ :: r => idxFragmentsFrom (k + 1) r
+def idxFragments (rows : List Row) : List (Int × Fragment) := idxFragmentsFrom 0 rows
+
+/-- the left-over Scaffold objects created by `add_missing_scaffolds_from_input` live in an arena, each with its dynamically added attribute
+    `input_predecessor` (None until set) -/
+abbrev Leftover := Scaffold × Option (Row × List Row)
+def loGet (heap : List Leftover) (r : Nat) : Leftover := heap.getD r (({ name := [] } : Scaffold), none)
+def loSet (heap : List Leftover) (r : Nat) (f : Scaffold → Scaffold) : List Leftover :=
+  match heap[r]? with
+  | some x => heap.set r (f x.1, x.2)
+  | none => heap
+def loSetPred (heap : List Leftover) (r : Nat) (p : Option (Row × List Row)) : List Leftover :=
+  match heap[r]? with
+  | some x => heap.set r (x.1, p)
+  | none => heap
+
 /-- `BuildAssembly.add_scaffold(result)`: the result now belongs to the assembly being built (the model's `Res.added`) -/
 def markAdded (store : List Res) (sid : Nat) : List Res :=
   AgpTpf.setAt store sid { (store.getD sid default) with added := true }
